@@ -38,9 +38,11 @@ func fieldIndex(t types.Type, name string) int {
 
 type xAttr struct{ Space, Key, Value *smt.Term }
 type xChild struct {
-	Elem *Ptr      // element child
-	Text *smt.Term // character data child
-	Kind string    // "elem", "text", "other"
+	Elem  *Ptr      // element child
+	Text  *smt.Term // character data child
+	Kind  string    // "elem", "text", "other"
+	CData bool      // character data held as a CDATA section node
+	CP    *Ptr      // the CharData node
 }
 type xElem struct {
 	P        *Ptr
@@ -81,8 +83,10 @@ func (in *Interp) viewElem(p *Ptr) *xElem {
 		case isNamed(ifc.T, etreePkg, "Element"):
 			e.Children = append(e.Children, xChild{Kind: "elem", Elem: cp})
 		case isNamed(ifc.T, etreePkg, "CharData"):
-			d := in.load(cp).(*StructV).F[fieldIndex(cdt, "Data")].(*smt.Term)
-			e.Children = append(e.Children, xChild{Kind: "text", Text: d})
+			cdv := in.load(cp).(*StructV)
+			d := cdv.F[fieldIndex(cdt, "Data")].(*smt.Term)
+			fl, _ := cdv.F[fieldIndex(cdt, "flags")].(*smt.Term)
+			e.Children = append(e.Children, xChild{Kind: "text", Text: d, CP: cp, CData: fl != nil && fl.Const && fl.U&2 != 0})
 		default:
 			e.Children = append(e.Children, xChild{Kind: "other"})
 		}
@@ -120,12 +124,43 @@ func (in *Interp) treeSig(p *Ptr, b *strings.Builder) {
 		case "elem":
 			in.treeSig(c.Elem, b)
 		case "text":
-			b.WriteString("T(" + c.Text.S + ")")
+			if c.CData {
+				b.WriteString("CDATA(" + c.Text.S + ")")
+			} else {
+				b.WriteString("T(" + c.Text.S + ")")
+			}
 		default:
 			b.WriteString("O")
 		}
 	}
 	b.WriteString("</>")
+}
+
+// clearCData turns every CDATA node of the subtree into ordinary character data (what a default parse yields).
+func (in *Interp) clearCData(p *Ptr) {
+	cdt := in.etreeType("CharData")
+	fi := fieldIndex(cdt, "flags")
+	e := in.viewElem(p)
+	for _, c := range e.Children {
+		switch {
+		case c.Kind == "elem":
+			in.clearCData(c.Elem)
+		case c.Kind == "text" && c.CData:
+			fl := in.load(c.CP).(*StructV).F[fi].(*smt.Term)
+			in.store(c.CP.extend(fi), smt.BV(fl.U&^2, fl.W))
+		}
+	}
+}
+
+// hasCData: some character data below p is held as a CDATA node.
+func (in *Interp) hasCData(p *Ptr) bool {
+	e := in.viewElem(p)
+	for _, c := range e.Children {
+		if (c.Kind == "elem" && in.hasCData(c.Elem)) || (c.Kind == "text" && c.CData) {
+			return true
+		}
+	}
+	return false
 }
 
 // ---- calling real etree code ----
@@ -205,8 +240,14 @@ func init() {
 		rs := in.load(doc).(*StructV).F[fieldIndex(dt, "ReadSettings")]
 		def := zeroValue(in.etreeType("ReadSettings")).(*StructV)
 		rsv, _ := rs.(*StructV)
+		preserveCData := false
+		pcIdx := fieldIndex(in.etreeType("ReadSettings"), "PreserveCData")
 		for i := range def.F {
 			if t, ok := rsv.F[i].(*smt.Term); ok {
+				if i == pcIdx && t.Const && t.K == smt.KBool {
+					preserveCData = t.B
+					continue
+				}
 				if dtm, ok2 := def.F[i].(*smt.Term); ok2 && t.K == smt.KBool && (!t.Const || t.B != dtm.B) {
 					in.end("unmodelled", "etree ReadSettings differ from the defaults (field %d): the parse model does not apply at %s", i, in.where())
 				}
@@ -221,6 +262,10 @@ func init() {
 		}
 		if d.Root != nil {
 			cp := in.elemCopy(d.Root)
+			if !preserveCData {
+				// CDATA sections arrive as ordinary character data unless ReadSettings.PreserveCData is set
+				in.clearCData(cp)
+			}
 			setRoot := in.etreeMethod(types.NewPointer(in.etreeType("Document")), "SetRoot")
 			in.callFunction(setRoot, []Value{doc, cp}, nil)
 		}
